@@ -10,6 +10,7 @@ executed; calls are inlined (crate-local, bounded), summarised (std) or kept uni
 """
 import re
 from . import terms as T
+from .inventory import KNOWN as KNOWN_FNS
 from .terms import I, B, TRUE, FALSE
 
 INT_TYS = set(T.INT_RANGES) - {'bool'}
@@ -1661,8 +1662,9 @@ class Interp:
                 self.store(st, cell, path, args[0])
                 return self.goto(st, fr, target, out)
         local_fn = self.crate.fn(name) if c.get('local') else None
-        if local_fn is not None and not self.uninterpreted(name):
-            if (self.inline is None or self.inline(name)):
+        fresh_helper = local_fn is not None and name not in KNOWN_FNS   # extracted after the reference tree: see inline
+        if local_fn is not None and (fresh_helper or not self.uninterpreted(name)):
+            if (fresh_helper or self.inline is None or self.inline(name)):
                 depth = sum(1 for f in st.frames if f.fn.path == name)
                 if depth == 0 and len(st.frames) <= self.max_depth + 2:
                     return self.enter(st, fr, local_fn, args, dest, target, out)
